@@ -83,6 +83,28 @@ def compare(base, got):
     return None
 
 
+def compare_texts(src, text, base, got):
+    """compare() for two texts with identical AST. When the printer reordered tokens (ast.unparse prints f(k=1, *x) as
+    f(*x, k=1)) NAME-token ordinals cannot identify bindings across the texts and "corresponding order" of diagnostics
+    is not defined: such pairs are compared on the multiset of diagnostics only."""
+    import collections
+    from . import dyn_common
+    if layout.name_token_strings(src) == layout.name_token_strings(text):
+        return compare(base, got)
+    a, b = collections.Counter(base[0]), collections.Counter(got[0])
+    if a == b:
+        return None
+    names = {msg.rpartition(': ')[2] for (code, msg) in list((a - b)) + list((b - a))}
+    skw = dyn_common.star_before_keyword_walrus(ast.parse(src))
+    bound = set()
+    for v in skw.values():
+        bound.update(v)
+    if names and names <= bound:
+        return ('star-argument-evaluated-before-keyword-walrus', 'f(kw=(n := v), *n) and its unparse form f(*n, kw=(n := v)) get different diagnostics for %s: '
+                'only in original %s / only in variant %s' % (sorted(names), list((a - b).items())[:3], list((b - a).items())[:3]))
+    return ('diagnostics-differ', 'only in original %s / only in variant %s' % (list((a - b).items())[:3], list((b - a).items())[:3]))
+
+
 def variants_of(src, rnd, k):
     """yield (label, text, stats)"""
     try:
@@ -136,7 +158,7 @@ def check_source(sh, src, filename, rnd, k, origin):
             got = summary(text, filename)
         except Exception as e:
             return ('variant-crashes:%s' % type(e).__name__, 'analysis of the variant raised %r' % (e,), text)
-        diff = compare((base[0], []), (got[0], [])) if diags_only else compare(base, got)
+        diff = compare_texts(src, text, base, got)
         if diff:
             return (diff[0] + ':' + label, diff[1], text)
     return None
@@ -175,7 +197,7 @@ def minimise_pair(src, variant, filename, sig):
             v = layout.relayout(cand, random.Random(core.derive_seed(0, core.digest(cand))))
         if not layout.same_ast(cand, v):
             return False
-        d = compare(summary(cand, filename), summary(v, filename))
+        d = compare_texts(cand, v, summary(cand, filename), summary(v, filename))
         return bool(d) and (d[0] + ':' + label) == sig
     try:
         if len(src) < 60000 and still(src):
@@ -223,13 +245,12 @@ def replay(case):
     fn = case.get('filename') or suppview.filename_for(False)
     if not layout.same_ast(case['src'], case['variant']):
         return []
-    a, b = summary(case['src'], fn), summary(case['variant'], fn)
-    if layout.name_token_strings(case['src']) != layout.name_token_strings(case['variant']):
-        a, b = (a[0], []), (b[0], [])
-    d = compare(a, b)
+    d = compare_texts(case['src'], case['variant'], summary(case['src'], fn), summary(case['variant'], fn))
     if d:
         return [{'signature': d[0], 'case': case, 'detail': d[1]}]
     return []
 
 
-KNOWN = {}
+KNOWN_SIGS = {'C13-star-before-keyword-walrus': lambda sig: sig.startswith('star-argument-evaluated-before-keyword-walrus')}
+_listed = {e['id'] for e in core.load_known(PROPERTY) if e.get('status') == 'finding'}
+KNOWN = {fid: (lambda v, p=pred: p(v['signature'])) for fid, pred in KNOWN_SIGS.items() if fid in _listed}
